@@ -23,6 +23,19 @@ vars == <<l, posts, script, returned, ids, oks>>
 Init == l = 1 /\ posts = <<>> /\ script = <<>> /\ returned = {} /\ ids = {} /\ oks = {}
 
 Good(s) == s.status = 200 /\ ~s.cut /\ ~s.stall
+(* the values of attributes-charset / attributes-natural-language are the library's defaults, which no property fixes *)
+N_charset == "617474726962757465732d63686172736574"
+N_lang == "617474726962757465732d6e61747572616c2d6c616e6775616765"
+Opaque(v, kind) == IF v.k = kind THEN [k |-> kind] ELSE v
+ReqNorm(gs) ==
+  LET n == NormMsg(gs) IN
+  [i \in 1..Len(n) |->
+     IF n[i].tag = 1
+     THEN [tag |-> 1, attrs |-> [a \in DOMAIN n[i].attrs |->
+                                   IF a = N_charset THEN Opaque(n[i].attrs[a], "Charset")
+                                   ELSE IF a = N_lang THEN Opaque(n[i].attrs[a], "NaturalLanguage")
+                                   ELSE n[i].attrs[a]]]
+     ELSE n[i]]
 Lookup(f, k, d) == IF k \in DOMAIN f THEN f[k] ELSE d
 HasHeader(h, name, value) == name \in DOMAIN h /\ \E i \in 1..Len(h[name]) : h[name][i] = value
 
@@ -37,7 +50,7 @@ Srv(e) ==
   /\ HasHeader(e.hdr, "host", e.exp_host)
   /\ e.body_ok                                              \* HTTP framing of the request body was consistent
   /\ e.term = "end" /\ AllTokOK(e.toks)
-  /\ LET r == Reading(AbsToks(e.toks)) IN r.ok /\ NormMsg(r.v) = NormMsg(e.msg.groups)
+  /\ LET r == Reading(AbsToks(e.toks)) IN r.ok /\ ReqNorm(r.v) = ReqNorm(e.msg.groups)
   /\ e.hdr_ipp = e.msg.hdr
   /\ e.pay_ok
   /\ posts' = [posts EXCEPT ![e.rid] = @ + 1]
